@@ -1,9 +1,12 @@
 /- Line-protocol driver: one request per line on stdin, one response per line on stdout.
    Imports only Mathlib-free model files. -/
 import Iodata.Drv.Conv
+import Iodata.Drv.Helpers
+import Iodata.Drv.Select
+import Iodata.Drv.Inputs
 
 def handlers : List (List String → Option String) :=
-  [Iodata.Drv.Conv.handle]
+  [Iodata.Drv.Conv.handle, Iodata.Drv.Helpers.handle, Iodata.Drv.Select.handle, Iodata.Drv.Inputs.handle]
 
 def respond (line : String) : String :=
   let ws := (line.splitOn " ").filter (· ≠ "")
